@@ -95,6 +95,8 @@ def context_of(v, job):
             args = [e["v"] for e in evs[j0:i] if e.get("e") == "arg" and e.get("t") == t]
             d = dest[-1] if dest else -1
             ctx.append("dtor-of=" + ("displaced" if d in olds else "rejected-argument" if (d in args and not olds and op == "cas") else "other-value"))
+            # where in the operation: after its own exchange (i.e. during the walk over the debts / the helping of readers) or before
+            ctx.append("after-own-write" if olds else "before-own-write")
         else:
             ctx.append("closure")
     return ",".join(ctx)
@@ -725,20 +727,25 @@ def weak_stage(tier, seed, key, P):
         for spec, cs, nsw in (("WeakFast.tla", consts[0], 3), ("WeakHelp.tla", consts[1], 2), ("WeakNode.tla", consts[2] if len(consts) > 2 else None, 0)):
             if cs is None:
                 continue
-            cfg = "SPECIFICATION Spec\nCONSTANTS StrictSC = TRUE\n" + (" NSwaps = %d\n" % nsw if nsw else "") + "".join(' %s = "%s"\n' % kv for kv in cs.items()) + "INVARIANT Safe\nCHECK_DEADLOCK FALSE\n"
-            name = os.path.join(P.SPEC, "_weak_%d.cfg" % os.getpid())
-            open(name, "w").write(cfg)
-            try:
-                rc, o, wall = P.tlc(spec, os.path.basename(name), wd, workers=8, timeout=1500, heap="8g")
-            finally:
-                os.remove(name)
-            st, tr = P.mc_stats(o)
-            states += st
-            trans += tr
-            ok = "No error has been found" in o
-            runs.append({"spec": spec, "constants": cs, "states": st, "ok": ok, "wall": round(wall, 1)})
-            if not ok:
-                if "Invariant Safe is violated" not in o:
+            # two runs per model: a use after free found first must not hide a race (different properties), and vice versa
+            for inv in ("SafeUaf", "SafeRace"):
+                if inv == "SafeRace" and spec == "WeakNode.tla":
+                    continue
+                cfg = "SPECIFICATION Spec\nCONSTANTS StrictSC = TRUE\n" + (" NSwaps = %d\n" % nsw if nsw else "") + "".join(' %s = "%s"\n' % kv for kv in cs.items()) + "INVARIANT %s\nCHECK_DEADLOCK FALSE\n" % inv
+                name = os.path.join(P.SPEC, "_weak_%d.cfg" % os.getpid())
+                open(name, "w").write(cfg)
+                try:
+                    rc, o, wall = P.tlc(spec, os.path.basename(name), wd, workers=4, timeout=1500, heap="8g")
+                finally:
+                    os.remove(name)
+                st, tr = P.mc_stats(o)
+                states += st
+                trans += tr
+                ok = "No error has been found" in o
+                runs.append({"spec": spec, "invariant": inv, "constants": cs, "states": st, "ok": ok, "wall": round(wall, 1)})
+                if ok:
+                    continue
+                if "Invariant %s is violated" % inv not in o:
                     raise P.ToolError("weak-memory model checking failed:\n" + o[-1500:])
                 errs = re.findall(r'err = "([\w-]+)"', o)
                 kind = [e for e in errs if e != "ok"][-1] if errs else "?"
